@@ -355,9 +355,9 @@ func runC27(c *fw.Ctx) {
 	}
 	// configurations: star (each dimension alone + one all-on) for every
 	// state; the full product for the reduced states in thorough.
-	star := [][4]int{{0, 0, 0, 0}, {1, 0, 0, 0}, {0, 1, 0, 0}, {0, 0, 1, 0}, {0, 0, 2, 0}, {0, 0, 3, 0}, {0, 0, 0, 1}, {0, 1, 0, 1}, {1, 1, 1, 1}}
+	star := [][4]int{{0, 0, 0, 0}, {1, 0, 0, 0}, {0, 1, 0, 0}, {0, 2, 0, 0}, {0, 0, 1, 0}, {0, 0, 2, 0}, {0, 0, 3, 0}, {0, 0, 0, 1}, {0, 1, 0, 1}, {1, 1, 1, 1}}
 	if c.Thorough() {
-		star = append(star, [4]int{0, 2, 0, 0}, [4]int{0, 2, 0, 1}, [4]int{1, 0, 0, 1})
+		star = append(star, [4]int{0, 2, 0, 1}, [4]int{1, 0, 0, 1})
 	}
 	inStar := map[[4]int]bool{}
 	for _, s := range star {
